@@ -17,7 +17,9 @@ from engineio import packet as eio_packet
 from vlib import drive as D
 from vlib import sched as SC
 from vlib.core import jsonable
-from checks.c20 import MGR_METHODS, SchedLock
+from checks.c20 import MGR_METHODS
+
+SchedLock = SC.SchedLock
 
 KNOWN = 'session-survives-namespace-reconnect'
 
@@ -81,8 +83,7 @@ def run_schedule(ctx, ender, choices, rng):
            'seen_by_connect_handler': jsonable(seen)}
     errs = list(sched.errors) + d.errors()
     if sched.aborted:
-        ctx.violation(None, 'schedule did not complete: %s' % sched.aborted,
-                      wit)
+        SC.report_abort(ctx, sched, wit)
         return trace
     if errs:
         wit['errors'] = [{'exc': e.get('exc'), 'tb': (e.get('tb') or '')[
